@@ -47,16 +47,63 @@ pub fn run(req: &Value) -> Value {
                 text.push_str(&format!("api = {}\n", toml::Value::String(d["api"].as_str().unwrap_or("").to_string())));
             }
             if d["rest_ok"].as_bool().unwrap_or(false) {
-                text.push_str("\n[buildpack]\nid = \"demo/c05\"\nversion = \"0.0.1\"\n");
+                text.push_str(&format!("\n[buildpack]\nid = {}\nversion = {}\n", toml::Value::String(d["id"].as_str().unwrap_or("demo/c05").to_string()), toml::Value::String(d["version"].as_str().unwrap_or("0.0.1").to_string())));
+                if let Some(n) = d["name"].as_str() {
+                    text.push_str(&format!("name = {}\n", toml::Value::String(n.to_string())));
+                }
+                if let Some(i) = d["metadata_id"].as_i64() {
+                    text.push_str(&format!("\n[metadata]\nident = {i}\n"));
+                }
             }
         }
         fs::write(w.join("bp/buildpack.toml"), text).unwrap();
     }
     if req["platform_env"].as_bool().unwrap_or(false) {
         fs::create_dir_all(w.join("platform/env")).unwrap();
-        fs::write(w.join("platform/env/FOO"), "bar").unwrap();
+        fs::create_dir_all(w.join("ext/dir")).unwrap();
+        match req["platform_entries"].as_array() {
+            None => fs::write(w.join("platform/env/FOO"), "bar").unwrap(),
+            Some(ents) => {
+                for (i, e) in ents.iter().enumerate() {
+                    let p = w.join("platform/env").join(e["name"].as_str().unwrap_or("x"));
+                    let val = e["value"].as_str().unwrap_or("");
+                    match e["kind"].as_str().unwrap_or("") {
+                        "file" => fs::write(&p, val).unwrap(),
+                        "file-bad-utf8" => fs::write(&p, [b'a', 0xff, 0xfe]).unwrap(),
+                        "dir" => fs::create_dir_all(&p).unwrap(),
+                        "link-file" => {
+                            let t = w.join(format!("ext/target{i}"));
+                            fs::write(&t, val).unwrap();
+                            std::os::unix::fs::symlink(&t, &p).unwrap();
+                        }
+                        "link-dir" => std::os::unix::fs::symlink(w.join("ext/dir"), &p).unwrap(),
+                        "link-dangling" => std::os::unix::fs::symlink(w.join("ext/nothing"), &p).unwrap(),
+                        _ => {}
+                    }
+                }
+            }
+        }
     }
-    fs::write(w.join("in/buildpack-plan.toml"), if req["buildpack_plan_ok"].as_bool().unwrap_or(true) { "entries = []\n" } else { "= [" }).unwrap();
+    let mut plan_text = String::new();
+    match req["plan"].as_array() {
+        Some(entries) if !entries.is_empty() => {
+            for e in entries {
+                plan_text.push_str(&format!("[[entries]]\nname = {}\n", toml::Value::String(e["name"].as_str().unwrap_or("").to_string())));
+                if let Some(i) = e["metadata_id"].as_i64() {
+                    plan_text.push_str(&format!("[entries.metadata]\nident = {i}\n"));
+                }
+            }
+        }
+        _ => plan_text.push_str("entries = []\n"),
+    }
+    fs::write(w.join("in/buildpack-plan.toml"), if req["buildpack_plan_ok"].as_bool().unwrap_or(true) { plan_text.as_str() } else { "= [" }).unwrap();
+    match req["store"].as_str() {
+        Some("valid") => fs::write(w.join("L/store.toml"), format!("[metadata]\nident = {}\n", req["store_metadata_id"].as_i64().unwrap_or(0))).unwrap(),
+        Some("bad-utf8") => fs::write(w.join("L/store.toml"), [b'[', b'm', 0xff, b']']).unwrap(),
+        Some("bad-syntax") => fs::write(w.join("L/store.toml"), "= [").unwrap(),
+        Some("dir") => fs::create_dir_all(w.join("L/store.toml")).unwrap(),
+        _ => {}
+    }
     let mut olds: Vec<(String, Option<Vec<u8>>)> = Vec::new();
     for (p, present) in req["olds"].as_object().cloned().unwrap_or_default() {
         let real = w.join(p.trim_start_matches('/'));
@@ -93,6 +140,8 @@ pub fn run(req: &Value) -> Value {
         if present.as_bool().unwrap_or(false) {
             if v == "CNB_BUILDPACK_DIR" {
                 cmd.env(&v, w.join("bp"));
+            } else if let Some(val) = req["env_values"][&v].as_str() {
+                cmd.env(&v, val);
             } else {
                 cmd.env(&v, format!("val-{v}"));
             }
